@@ -73,6 +73,7 @@ class Run:
         s.src = Source(s.repo)
         s.obls, s.functions, s.assumed, s.bounded_log, s.notes = [], {}, set(), [], []
         s.wrapped = {}
+        s.known_classes = []      # failure classes of the native harnesses that belong to listed known findings
         s.t0 = time.time()
         s.timeout = 40 if s.tier == "quick" else 300
         s.level = "proof"
@@ -149,6 +150,7 @@ class Run:
             return
         listed = [f for f in s.known_findings() if f.get("id") == finding_id and f.get("status") == "known"]
         if listed:
+            s.known_classes.append(str(call.get("only_class") or fails[0].get("class") or ""))
             s.kf_bounded.append((listed[0], fails[0]))
         else:
             s.bounded_failures.append((name, fails[0]))
@@ -301,6 +303,8 @@ class Run:
                 # found that way IS a violation (it is a replayed input) - otherwise the obligation stays undecided
                 if o.meta.get("replay"):
                     status, rec = s.replay(o)
+                    if status == "reproduced" and s._is_known_class(rec, kf_open):
+                        status = "not-reproduced"       # the fallback search ran into the failing region of a LISTED finding: nothing new about this obligation
                     if status == "reproduced":
                         match = [f for f in kf_open if s._names(f, o.name)]
                         if not (match and s._finding_applies(match[0], o, status, rec)):
@@ -375,6 +379,14 @@ class Run:
             return True
         blob = json.dumps(rec, default=str, sort_keys=True)
         return all(str(x) in blob for x in w)
+
+    def _is_known_class(s, rec, kf_open):
+        import fnmatch
+        cls = str((rec or {}).get("class") or "")
+        if not cls:
+            return False
+        pats = [p_ for p_ in s.known_classes if p_] + [f["witness"]["kwargs"]["only_class"] for f in kf_open if f.get("witness", {}).get("kwargs", {}).get("only_class")]
+        return any(fnmatch.fnmatch(cls, p_) or fnmatch.fnmatch(cls, p_ + "*") for p_ in pats)
 
     def _finding_applies(s, f, o, status, rec):
         # the stored witness must still fail natively (otherwise the finding is stale and suppresses nothing)
